@@ -2,7 +2,7 @@ import Op2Proofs.Prt.Inv
 import Op2Proofs.Prt.ReadFacts
 /-! C10_bytes: with canonical palette headers the writer reproduces the consumed input bytes; where the headers sit. -/
 namespace Op2.Prt
-open Op2 Op2.Parser
+open Op2 Op2.Parser Op2.Parser.PrtInv
 
 /-- the 28 bytes of the `i`-th palette header of a PRT file (format: 8-byte `CPAL` section header, then blocks of
     28 + 1024 bytes) -/
@@ -81,7 +81,7 @@ theorem readFull_headers {b : Bytes} {hs : List Bytes} {a : ArtFile} {rest : Byt
 end Op2.Prt
 
 namespace Op2.Prt
-open Op2 Op2.Parser
+open Op2 Op2.Parser Op2.Parser.PrtInv
 
 theorem encFileH_of_canonical (hs : List Bytes) (a : ArtFile) (hl : hs.length = a.palettes.length)
     (hc : ∀ h ∈ hs, h = canonicalPaletteHeader) : encFileH hs a = encFile a := by
